@@ -398,12 +398,28 @@ func (a *A) ruleFastFallback() {
 		// on the false edge of ok, the function returns ok=false
 		good := false
 		if okV != nil {
-			for _, r := range *okV.Referrers() {
-				if iff, ok := r.(*ssa.If); ok {
-					fb := iff.Block().Succs[1]
-					if ret, ok := fb.Instrs[len(fb.Instrs)-1].(*ssa.Return); ok && len(ret.Results) == 2 {
-						if k, ok := ret.Results[1].(*ssa.Const); ok && k.Value != nil && !constant.BoolVal(k.Value) {
-							good = true
+			// the branch may test ok or a named negation of it (`bad := !ok; if bad {`)
+			type use struct {
+				v   ssa.Value
+				neg bool
+			}
+			work := []use{{okV, false}}
+			for len(work) > 0 {
+				u := work[0]
+				work = work[1:]
+				for _, r := range *u.v.Referrers() {
+					if un, ok := r.(*ssa.UnOp); ok && un.Op == token.NOT {
+						work = append(work, use{un, !u.neg})
+					}
+					if iff, ok := r.(*ssa.If); ok {
+						fb := iff.Block().Succs[1]
+						if u.neg {
+							fb = iff.Block().Succs[0]
+						}
+						if ret, ok := fb.Instrs[len(fb.Instrs)-1].(*ssa.Return); ok && len(ret.Results) == 2 {
+							if k, ok := ret.Results[1].(*ssa.Const); ok && k.Value != nil && !constant.BoolVal(k.Value) {
+								good = true
+							}
 						}
 					}
 				}
